@@ -2,6 +2,7 @@
 # Builds the harness tools from files on disk only (offline). Idempotent.
 set -e
 cd "$(dirname "$0")"
+export VERIF_DIR="${VERIF_DIR:-$(pwd)}"
 export GOFLAGS=-mod=mod GOPROXY=off GOSUMDB=off GOTOOLCHAIN=local
 mkdir -p .work evidence replays
 (cd vmc && go build -o ../.work/vmc ./super)
